@@ -626,3 +626,38 @@ def state_writing_shortcuts(facts, records=None):
                     out.append(ob("lint.state-shortcut", key, s["loc"], "violated", "the branch `if %s` writes %s and returns: this path leaves %s without the steps every other path runs afterwards (compaction / trimming loop, accounting of totals, publication of cached counts) - a result that depends on whether the target happened to be empty" % (txt(s["c"])[:60], ", ".join(W), fn["name"]), fn["qname"]))
     out.append(ob("lint.state-shortcut", "all:mutators-scanned", "", "discharged", "%d merge / update members scanned for state-writing early returns" % n, ""))
     return out
+
+
+def unconditional_delegations(facts, fams=None):
+    """mutating member functions that on the reviewed tree only hand the operation to a member object (update_theta_sketch::trim ->
+    table_.trim(), union::update -> state_.update(..)) still do so on every call: the delegated call is reached unconditionally.  A
+    wrapper that starts to skip the operation for some state (`if (is_estimation_mode()) table_.trim();`) silently changes what
+    the public operation guarantees."""
+    import json, os
+    from vlib.core import VERIF
+    from astu import reach_tagged
+    sp = json.load(open(os.path.join(VERIF, "spec", "delegations.json")))["delegations"]
+    fns = functions_by(facts)
+    out = []
+    for pat, fn in sorted(fns.items()):
+        if fams and not any(pat.startswith(f) for f in fams):
+            continue
+        if not fn.get("rect") or fn.get("body") is None:
+            continue
+        key0 = "%s::%s(%d)" % (short(fn["rect"]), fn["name"], len(fn.get("params", [])))
+        if key0 not in sp:
+            continue
+        for want in sp[key0]:
+            fld, cname = want.split(".")
+            calls = []
+            walk(fn["body"], lambda n: calls.append(n) if n.get("k") == "Call" and n.get("cname") == cname and n.get("obj") is not None and txt(n["obj"]).split(".")[-1] == fld else None)
+            key = "%s:delegates-to-%s" % (key0, want)
+            if not calls:
+                out.append(ob("lint.delegation", key, fn["pat"], "unrecognised", "the call of %s() is no longer found in this wrapper: re-review spec/delegations.json" % want, fn["qname"]))
+                continue
+            conds = [txt(l) for l, o in reach_tagged(fn["body"], calls[0]) if o != "after-throw"]
+            if conds:
+                out.append(ob("lint.delegation", key, calls[0].get("loc", fn["pat"]), "violated", "%s() is now only called under `%s`: the public operation is silently skipped in the other states (e.g. trim() of an exact-mode sketch holding more than k entries leaves them all)" % (want, " && ".join(conds)), fn["qname"]))
+            else:
+                out.append(ob("lint.delegation", key, fn["pat"], "discharged", "always delegates to %s()" % want, fn["qname"]))
+    return out
